@@ -39,13 +39,14 @@ type readerModel struct {
 	pos     int // bytes consumed so far
 	relBase int // pos at the last Release
 
-	retain   bool
-	kept     []retained
-	maxKept  int
-	opIndex  int64
-	growths  int
-	lastMall int64
-	failed   bool // the reader has reported a failure (sticky state of the source)
+	retain        bool
+	kept          []retained
+	maxKept       int
+	opIndex       int64
+	growths       int
+	lastMall      int64
+	failed        bool // the reader has reported a failure (sticky state of the source)
+	sourceErrSeen bool
 }
 
 func (m *readerModel) site(op string) string { return op + "/" + m.kind }
@@ -122,6 +123,7 @@ func (m *readerModel) explainFailure(op string, n int, err error) {
 		c.Fail("WRONG_ERROR", m.site(op), sim.F{"want": errKind(m.termErr), "got": errKind(err)},
 			"%s(%d) ran out of data but reported %v instead of the source's error %v", op, n, err, m.termErr)
 	}
+	m.sourceErrSeen = true // the reader has surfaced its source's error: it is in its sticky error state
 	if m.src != nil && !m.src.Issued {
 		c.Fail("FABRICATED_ERROR", m.site(op), sim.F{"err": errKind(err)},
 			"%s(%d) reported %v although the source has not issued its error yet (source handed out %d of %d bytes)", op, n, err, m.src.Pos, m.avail)
